@@ -100,6 +100,7 @@ async fn startup_udp<const N: usize>(config: &ServerConfig<SslConfig>, user_mana
         let mut cleanup_timer = time::interval(ttl);
         info!("Udp server running => {}|{}|{}:{}", config.protocol, config.cipher, config.host, config.port);
         let mut buf = [0; 0x10000];
+        let has_session_id = config.cipher.is_aead_2022();
         loop {
             tokio::select! {
                 _ = cleanup_timer.tick() => {
@@ -127,7 +128,8 @@ async fn startup_udp<const N: usize>(config: &ServerConfig<SslConfig>, user_mana
                             let mut src = BytesMut::from(&buf[..len]);
                             match SessionCodec::<N>::decode(&codec, &mut src) {
                                 Ok(Some((content, peer_addr, session))) => {
-                                    let key = session.client_session_id;
+                                    // only 2022 datagrams carry a session id; other ciphers are told apart by the client's address
+                                    let key = if has_session_id { session.client_session_id } else { address_key(&client_addr) };
                                     // an association whose task has ended is replaced; no failure of one session ends the loop
                                     if net_map.get(&key).is_some_and(|assoc| assoc.task.is_finished()) {
                                         net_map.remove(&key);
@@ -138,7 +140,7 @@ async fn startup_udp<const N: usize>(config: &ServerConfig<SslConfig>, user_mana
                                             net_map.remove(&key);
                                         }
                                     } else {
-                                        match UdpAssociateContext::create(&session, client_addr, tx.clone()).await {
+                                        match UdpAssociateContext::create(key, has_session_id, client_addr, tx.clone()).await {
                                             Ok(assoc) => {
                                                 if let Err(e) = assoc.try_send((content, peer_addr, session)).await {
                                                     error!("[udp] association closed; client={client_addr}, error={e}");
@@ -189,7 +191,8 @@ impl<const N: usize> Drop for UdpAssociate<N> {
 
 struct UdpAssociateContext<const N: usize> {
     client_session_id: u64,
-    client_session_filter: PacketWindowFilter,
+    /// `None` for ciphers whose datagrams carry no packet id
+    client_session_filter: Option<PacketWindowFilter>,
     client_addr: SocketAddr,
     inbound: Sender<(BytesMut, Address, SocketAddr, Session<N>)>,
     outbound: UdpSocket,
@@ -200,7 +203,8 @@ struct UdpAssociateContext<const N: usize> {
 
 impl<const N: usize> UdpAssociateContext<N> {
     async fn create(
-        client_session: &Session<N>,
+        client_session_id: u64,
+        has_packet_id: bool,
         client_addr: SocketAddr,
         inbound: Sender<(BytesMut, Address, SocketAddr, Session<N>)>,
     ) -> anyhow::Result<UdpAssociate<N>> {
@@ -208,8 +212,8 @@ impl<const N: usize> UdpAssociateContext<N> {
 
         let outbound = UdpSocket::bind(SocketAddrV4::new(Ipv4Addr::UNSPECIFIED, 0)).await?;
         let mut assoc = Self {
-            client_session_id: client_session.client_session_id,
-            client_session_filter: PacketWindowFilter::new(),
+            client_session_id,
+            client_session_filter: has_packet_id.then(PacketWindowFilter::new),
             client_addr,
             inbound,
             outbound,
@@ -285,8 +289,19 @@ impl<const N: usize> UdpAssociateContext<N> {
     }
 
     fn validate_packet_id(&mut self, packet_id: u64) -> bool {
-        self.client_session_filter.validate_packet_id(packet_id, u64::MAX)
+        match self.client_session_filter.as_mut() {
+            Some(filter) => filter.validate_packet_id(packet_id, u64::MAX),
+            None => true,
+        }
     }
+}
+
+fn address_key(addr: &SocketAddr) -> u64 {
+    use std::hash::Hash;
+    use std::hash::Hasher;
+    let mut hasher = std::collections::hash_map::DefaultHasher::new();
+    addr.hash(&mut hasher);
+    hasher.finish()
 }
 
 #[cfg(octo_squirrel_verif)]
